@@ -102,6 +102,8 @@ func c14World(rc *kernel.RunCtx) {
 	defer templruntime.SetDevelopmentMode(false)
 
 	u := newUniverse(3)
+	genUses, defaultC12 = map[*Node]*nodeExt{}, fullC12(3)
+	defer func() { genUses, defaultC12 = nil, nil }()
 	nspec := t.Range(1, 4, "nspecs")
 	var specs []*Node
 	var docs [][]byte
@@ -117,7 +119,7 @@ func c14World(rc *kernel.RunCtx) {
 		}
 		specs = append(specs, s)
 		docs = append(docs, o.got)
-		shared = append(shared, (&Env{U: u, Static: true}).Build(s)) // one component value shared by all tasks
+		shared = append(shared, (&Env{U: u, Static: true, C12: defaultC12, Ext: genUses}).Build(s)) // one component value shared by all tasks
 	}
 	if dev {
 		// the solo renders above filled the literal cache; start the tasks on a cold cache so
